@@ -284,6 +284,70 @@ def execute_isolated(mod, spec, timeout=120, keep_log=0):
     return pickle.loads(data)
 
 
+class SequenceModule:
+    """Executes several specs one after the other in ONE process and reports the outcome of the last one: the way to
+    reproduce a violation that depends on what earlier runs left behind in the process (module- or class-level state of
+    the code under test)."""
+
+    def __init__(self, mod):
+        self.mod = mod
+        self.PROP = mod.PROP
+
+    def execute(self, spec, keep_log=0):
+        seq = spec["sequence"]
+        for s in seq[:-1]:
+            try:
+                self.mod.execute(s)
+            except (InvalidSpec, Violation):
+                pass
+        return self.mod.execute(seq[-1], keep_log=keep_log)
+
+
+def reproduce_with_predecessors(mod, verif_seed, idx, want_sig, start_index=0):
+    """A run that misbehaved in the batch but is clean in a process of its own: try it again after the runs that preceded
+    it in its worker's chunk (first only the run before it, then the whole chunk prefix). Returns (sequence spec,
+    outcome) if the violation comes back, else None. The sequence is then shortened greedily."""
+    chunk_start = start_index + ((idx - start_index) // CHUNK) * CHUNK
+    if idx == chunk_start:
+        return None
+    sm = SequenceModule(mod)
+
+    def run(indices):
+        specs = []
+        for i in indices:
+            try:
+                specs.append(make_spec(mod, verif_seed, i))
+            except Exception:  # noqa: BLE001
+                return None, None
+        spec = {"sequence": specs, "ops": specs[-1].get("ops", []), "indices": list(indices)}
+        out = execute_isolated(sm, spec, timeout=90)
+        return spec, out
+
+    def same(out):
+        sig = outcome_sig(out)
+        if sig is None:
+            return False
+        return sig == want_sig or (want_sig.startswith("process-") and sig.startswith("process-"))
+
+    for indices in ([idx - 1, idx], list(range(chunk_start, idx + 1))):
+        spec, out = run(indices)
+        if spec is None or not same(out):
+            continue
+        # shorten: drop predecessors one by one (latest first), bounded effort
+        keep = list(indices)
+        tries = 0
+        for i in list(reversed(keep[:-1])):
+            if tries >= (4 if want_sig.startswith("process-") else 25) or len(keep) <= 2:
+                break
+            tries += 1
+            cand = [x for x in keep if x != i]
+            sp2, out2 = run(cand)
+            if sp2 is not None and same(out2):
+                keep, spec, out = cand, sp2, out2
+        return spec, out
+    return None
+
+
 def outcome_sig(out):
     """Signature string of an isolated outcome (None when nothing is wrong)."""
     o = out["outcome"]
